@@ -1,4 +1,5 @@
 import Sgz.Proofs.Reader
+import Sgz.Proofs.Coords
 /-!
 # C02 — access-path coherence
 
@@ -75,6 +76,20 @@ theorem diagonal_lengths (n0 n1 : Nat) (c a : Int) (hc : -(n1 : Int) < c ∧ c <
     Reader.cdLen c n0 n1 = min (n0 : Int) (n1 + c) - max c 0 ∧
     Reader.adLen a n0 n1 = min a ((n0 : Int) - 1) - max 0 (a - n1 + 1) + 1 :=
   ⟨cdLen_spec c n0 n1 hc.1 hc.2, adLen_spec a n0 n1 ha.1 ha.2⟩
+
+/-- inline **by line number**: for every regular axis (`dil ≠ 0`: ascending, descending, non-unit, negative numbers) the
+number of ordinal `k` returns the same slice as `read_inline(k)` -/
+theorem inline_by_number (g : Geo) (hg : g.Valid) (il0 dil : Int) (hd : dil ≠ 0) (k : Nat) (hk : k < g.n0) :
+    IsSlice2 g (Coords.readInlineNumber g il0 dil (il0 + dil * (k : Int))) g.n1 g.n2 (fun x z => (k, x, z)) := by
+  unfold Coords.readInlineNumber
+  rw [not2d_of_valid g hg, Coords.coordToIndex_axis il0 dil hd g.n0 k hk]
+  exact readInline_ok g hg k hk
+
+theorem crossline_by_number (g : Geo) (hg : g.Valid) (xl0 dxl : Int) (hd : dxl ≠ 0) (k : Nat) (hk : k < g.n1) :
+    IsSlice2 g (Coords.readCrosslineNumber g xl0 dxl (xl0 + dxl * (k : Int))) g.n0 g.n2 (fun i z => (i, k, z)) := by
+  unfold Coords.readCrosslineNumber
+  rw [not2d_of_valid g hg, Coords.coordToIndex_axis xl0 dxl hd g.n1 k hk]
+  exact readCrossline_ok g hg k hk
 
 -- non-vacuity: valid geometries of each layout class exist, and the model returns arrays on them
 def gDefault : Geo := { n0 := 5, n1 := 6, n2 := 300, b0 := 4, b1 := 4, b2 := 256, u := 64 }
